@@ -41,6 +41,13 @@ def env():
         def __repr__(self):
             return "c%s" % self.name
 
+        # deterministic hash (identity equality is kept): set iteration order, hence set.pop()
+        # and event order, then depend only on the operation history, not on object addresses
+        def __hash__(self):
+            return self.__dict__.get("_c38_hash", 0)
+
+        __eq__ = object.__eq__
+
     class PList(Base):
         __tablename__ = "c38_plist"
         id = Column(Integer, primary_key=True)
@@ -67,6 +74,8 @@ def env():
 def new_items():
     E = env()
     items = [E["Child"](name=str(i)) for i in range(NITEMS)]
+    for i, it in enumerate(items):
+        it.__dict__["_c38_hash"] = (i * 5 + 3) % 16  # collides modulo the small set table sizes
     return items, {id(o): i for i, o in enumerate(items)}
 
 
@@ -144,6 +153,8 @@ def apply_list_op(target, op, items, plain):
         del target[op[1]]
         r = None
     elif n == "pop":
+        if op[1] == -1 and len(op) > 2 and op[2] == "noarg":
+            return target.pop()
         return target.pop(op[1])
     elif n == "clear":
         r = target.clear()
@@ -336,7 +347,8 @@ def gen_list_op(rng, n):
     if w < 0.41:
         return ["del", i]
     if w < 0.48:
-        return ["pop", rng.choice([-1, -1, i])]
+        j = rng.choice([-1, -1, i])
+        return ["pop", j] + (["noarg"] if j == -1 and rng.random() < 0.5 else [])
     if w < 0.50:
         return ["clear"]
     if w < 0.52:
@@ -681,6 +693,8 @@ def apply_dict_op(target, op, items, is_plain):
     if n == "popitem":
         return target.popitem()
     if n == "setdefault":
+        if len(op) > 3 and op[3] == "nodefault" and K(op[1]) in target:
+            return target.setdefault(K(op[1]))  # default omitted: only legal here when the key exists
         return target.setdefault(K(op[1]), items[op[2]])
     if n == "update":
         form, pairs = op[1], [(K(k), items[v]) for k, v in op[2]]
@@ -690,10 +704,18 @@ def apply_dict_op(target, op, items, is_plain):
             return target.update(pairs)
         if form == "kwargs":
             return target.update(**dict(pairs))
+        if form in ("mapping+kwargs", "pairs+kwargs"):
+            # positional argument AND keyword arguments in one call (disjoint keys): positional first
+            h = (len(pairs) + 1) // 2
+            pos = dict(pairs[:h]) if form == "mapping+kwargs" else list(pairs[:h])
+            return target.update(pos, **dict(pairs[h:]))
         raise ValueError(form)
     if n == "ior":
         t = target
-        t |= dict((K(k), items[v]) for k, v in op[2])
+        if op[1] == "pairs":
+            t |= [(K(k), items[v]) for k, v in op[2]]  # dict.__ior__ also accepts an iterable of pairs
+        else:
+            t |= dict((K(k), items[v]) for k, v in op[2])
         if t is not target:
             raise AssertionError("|= returned another object")
         return None
@@ -817,13 +839,13 @@ def gen_dict_sequence(rng, maxlen=8):
         elif w < 0.50:
             ops.append(["popitem"])
         elif w < 0.60:
-            ops.append(["setdefault", k, v])
+            ops.append(["setdefault", k, v] + (["nodefault"] if rng.random() < 0.3 else []))
         elif w < 0.78:
             ks = rng.sample(range(NKEYS), rng.choice([0, 1, 2, 3]))
-            ops.append(["update", rng.choice(["mapping", "pairs", "kwargs"]), [[kk, rng.randrange(NITEMS)] for kk in ks]])
+            ops.append(["update", rng.choice(["mapping", "pairs", "kwargs", "mapping+kwargs", "pairs+kwargs"]), [[kk, rng.randrange(NITEMS)] for kk in ks]])
         elif w < 0.84:
             ks = rng.sample(range(NKEYS), rng.choice([0, 1, 2]))
-            ops.append(["ior", "mapping", [[kk, rng.randrange(NITEMS)] for kk in ks]])
+            ops.append(["ior", rng.choice(["mapping", "mapping", "pairs"]), [[kk, rng.randrange(NITEMS)] for kk in ks]])
         elif w < 0.92:
             ops.append(["kset", v])
         else:
